@@ -29,6 +29,9 @@ DICT_TABLES = {}      # module -> {name: ast.Dict} read-only lookup tables found
 
 
 def _literal(e, depth=0):
+    if isinstance(e, ast.Call) and depth == 0 and ast.unparse(e.func) == "re.compile" and len(e.args) == 1 and not e.keywords and \
+            (isinstance(e.args[0], ast.Name) or _literal(e.args[0], 1)):
+        return True           # a precompiled pattern: `_RX = re.compile(P)` ... `_RX.sub(...)` is re.sub(P, ...)
     if isinstance(e, ast.Constant):
         return not isinstance(e.value, type(Ellipsis))
     if isinstance(e, ast.UnaryOp) and isinstance(e.op, (ast.USub, ast.UAdd)) and isinstance(e.operand, ast.Constant) and \
@@ -358,6 +361,10 @@ _STDLIB_KW = {
 _FOLDABLE_STR = ("lower", "upper", "strip", "lstrip", "rstrip", "title", "capitalize", "casefold", "swapcase")
 
 
+def dump_(e):
+    return ast.unparse(e)
+
+
 def _package_signatures(trees):
     """function / method name -> positional parameter names (self / cls dropped), when the name has one definition in the package
     (or all its definitions agree)"""
@@ -381,7 +388,7 @@ def _package_signatures(trees):
                     sigs.setdefault(cls.name, set()).add(tuple(x.arg for x in a.args)[1:])
                 else:
                     sigs.setdefault(cls.name, set()).add(None)
-    return dict((k, next(iter(v))) for k, v in sigs.items() if len(v) == 1 and next(iter(v)) is not None)
+    return dict((k, set(x for x in v if x is not None)) for k, v in sigs.items() if None not in v)
 
 
 class _KwToPos(ast.NodeTransformer):
@@ -399,15 +406,30 @@ class _KwToPos(ast.NodeTransformer):
                 and not node.args and not node.keywords:
             self.count += 1
             return ast.copy_location(ast.Constant(value=getattr(f.value.value, f.attr)()), node)
+        # re.compile(P).sub(r, s) -> re.sub(P, r, s)  (likewise match / search / fullmatch / split / findall)
+        if isinstance(f, ast.Attribute) and f.attr in ("sub", "subn", "match", "search", "fullmatch", "split", "findall") and isinstance(f.value, ast.Call) \
+                and dump_(f.value.func) == "re.compile" and len(f.value.args) == 1 and not f.value.keywords and not node.keywords:
+            self.count += 1
+            return ast.copy_location(ast.Call(func=ast.Attribute(value=ast.Name(id="re", ctx=ast.Load()), attr=f.attr, ctx=ast.Load()),
+                                              args=[f.value.args[0]] + list(node.args), keywords=[]), node)
         if not node.keywords or any(k.arg is None for k in node.keywords) or any(isinstance(a, ast.Starred) for a in node.args):
             return node
         name = f.id if isinstance(f, ast.Name) else f.attr if isinstance(f, ast.Attribute) else None
-        params = self.sigs.get(name)
-        explicit_self = False
-        if params is None:
+        explicit_self = isinstance(f, ast.Attribute) and f.attr == "__init__"        # Base.__init__(self, ...)
+        cands = self.sigs.get(name)
+        params = None
+        if cands:
+            # several definitions of the name: the one (and only one) whose parameters include every keyword used and that
+            # can take the positional arguments given
+            npos_ = len(node.args) - (1 if explicit_self else 0)
+            fit = [p_ for p_ in cands if all(k.arg in p_ for k in node.keywords) and npos_ <= len(p_) and
+                   not any(k.arg in p_[:npos_] for k in node.keywords)]
+            if len(fit) == 1:
+                params = fit[0]
+            elif len(fit) > 1 and len(set(p_[:max(len(x) for x in fit)] for p_ in fit)) == 1:
+                params = fit[0]
+        if params is None and not cands:
             params = _STDLIB_KW.get(name)
-        elif isinstance(f, ast.Attribute) and f.attr == "__init__":
-            explicit_self = True        # Base.__init__(self, ...)
         if not params:
             return node
         npos = len(node.args) - (1 if explicit_self else 0)
